@@ -535,6 +535,10 @@ func runPool(mode string) sim.RigFunc {
 		if mode == "C05" {
 			nreq = 1 + st.Draw(6)
 		}
+		if c.Tier == "thorough" {
+			nreq += st.Draw(4)
+			c.MaxSteps = 500
+		}
 		c.Params["requests"] = nreq
 		for i := 0; i < nreq; i++ {
 			r.addReq(i)
